@@ -474,3 +474,44 @@ def c20_choice_labels(l1: bool, l2: bool, l3: bool, dup: bool, shift: bool, c0: 
         if len([w for w in hits if ("[row : " + str(rn) + "]") in w]) != 1:
             return False
     return True
+
+
+# ---- b': Levenshtein on the real function, short strings (E1; round 3) -------------------------------
+def _lev_ref(a: str, b: str) -> int:
+    """Textbook recursive definition (independent of the implementation's row algorithm)."""
+    if len(a) == 0:
+        return len(b)
+    if len(b) == 0:
+        return len(a)
+    if a[0] == b[0]:
+        return _lev_ref(a[1:], b[1:])
+    return 1 + min(_lev_ref(a[1:], b), _lev_ref(a, b[1:]), _lev_ref(a[1:], b[1:]))
+
+
+def c20_lev_small(la: int, lb: int, a0: int, a1: int, a2: int, a3: int, b0: int, b1: int, b2: int, b3: int) -> bool:
+    """
+    vpre: 97 <= a0 <= 98 and 97 <= a1 <= 98 and 97 <= a2 <= 98 and 97 <= a3 <= 98
+    vpre: 97 <= b0 <= 98 and 97 <= b1 <= 98 and 97 <= b2 <= 98 and 97 <= b3 <= 98
+    vpost: _ == True
+    """
+    from pyxform.utils import levenshtein_distance
+
+    a = S(*[a0, a1, a2, a3][:la])
+    b = S(*[b0, b1, b2, b3][:lb])
+    return levenshtein_distance(a, b) == _lev_ref(a, b)
+
+
+specialise(
+    "C20",
+    "b.levenshtein-small",
+    c20_lev_small,
+    {"la": [0, 1, 2, 3, 4], "lb": [0, 1, 2, 3, 4]},
+    skip_if=lambda fx: fx["la"] + fx["lb"] > 6,
+    reach_if=lambda fx: fx["la"] == 2 and fx["lb"] == 2,
+    timeout=400,
+    kernel=("pyxform.utils:levenshtein_distance",),
+    shims=(),
+    symbolic="every character of both strings over a 2-letter alphabet (equal / different is all the algorithm observes)",
+    bounds="string lengths fixed per instance, 0-4 each, sum <= 6; compared with the textbook recursive definition (whole function incl. any shortcut before the DP rows, which the row-step induction of b.levenshtein does not see)",
+    weight=30,
+)
